@@ -385,6 +385,9 @@ def shard(ctx):
         spec = gen.tree(rng, n, pools, max_arity=rng.choice([2, 3, 5, 8]),
                         p_unary=rng.choice([0, 0.15]),
                         moves=rng.choice([0, 0, 1, 3, 6]))
+        gen.spice(rng, spec, ['cat-keyword', 'cat-apostrophe',
+                              'cat-digit-first', 'cat-punct-char',
+                              'pos-punct-char'], p=0.3, q=0.5)
         unmarked = rng.random() < 0.08
         if not unmarked:
             gen.assign_heads(rng, spec, rng.choice(['random', 'first', 'last']))
